@@ -2,6 +2,7 @@ package props
 
 import (
 	"fmt"
+	"go/token"
 	"sort"
 	"strings"
 
@@ -584,6 +585,52 @@ func (c *Ctx) growUnrollOrder(fn *ssa.Function) {
 			}
 		default:
 			bad = append(bad, "unrecognised copy of the old ring at "+c.P.InstrPos(x.call))
+		}
+	}
+	// the offsets and bounds of the copies are those of the old ring: no field they load (size, head, tail, mask) has been
+	// given its new value on a path to the copy
+	var fieldLoads func(v ssa.Value, d int, out *[]*ssa.UnOp)
+	fieldLoads = func(v ssa.Value, d int, out *[]*ssa.UnOp) {
+		if v == nil || d > 4 {
+			return
+		}
+		switch x := v.(type) {
+		case *ssa.UnOp:
+			if x.Op == token.MUL {
+				if p := ir.PathOf(x.X); len(p.Fields) == 1 {
+					*out = append(*out, x)
+				}
+				return
+			}
+			fieldLoads(x.X, d+1, out)
+		case *ssa.BinOp:
+			fieldLoads(x.X, d+1, out)
+			fieldLoads(x.Y, d+1, out)
+		case *ssa.Convert:
+			fieldLoads(x.X, d+1, out)
+		}
+	}
+	for _, x := range cps {
+		var lds []*ssa.UnOp
+		fieldLoads(x.srcLow, 0, &lds)
+		fieldLoads(x.srcHigh, 0, &lds)
+		fieldLoads(x.dstLow, 0, &lds)
+		for _, ld := range lds {
+			f := ir.PathOf(ld.X).Fields[0]
+			if f == "ring" {
+				continue
+			}
+			for _, b := range ld.Parent().Blocks {
+				for _, in := range b.Instrs {
+					st, ok := in.(*ssa.Store)
+					if !ok {
+						continue
+					}
+					if p := ir.PathOf(st.Addr); len(p.Fields) == 1 && p.Fields[0] == f && ir.CanReach(st, ld) {
+						bad = append(bad, fmt.Sprintf("the copy at %s is placed with %s as stored at %s - the value of the new ring, not of the ring being copied", c.P.InstrPos(x.call), f, c.P.InstrPos(st)))
+					}
+				}
+			}
 		}
 	}
 	c.R.Check(len(bad) == 0, ruleT5, "grow:unrolls-oldest-first", c.P.Pos(fn.Pos()), fmt.Sprintf("%d copies: ring[head:...] to offset 0, ring[:tail] to offset size-head", len(cps)), joinStr(bad, "; ")+": after growing a wrapped queue, entries are released (and QoS 2 messages handed on) out of order")
